@@ -177,3 +177,29 @@ def deregister_all(mods):
     for m in mods:
         if m.model_key in model.models_available:
             model.deregister_model(m)
+
+
+def load_derived(mk, tmpdir, tag):
+    """A user's module DERIVED from the shipped model `mk` (star import of
+    the shipped module, own model function, own key), loaded from a file and
+    registered.  -> (key, NaniteFitModel)"""
+    import pathlib
+    from nanite import model
+    shipped = model.models_available[mk]
+    modname = shipped.module.__name__
+    keys = list(shipped.parameter_keys)
+    sig = ", ".join(k + ("=0" if k in ("contact_point", "baseline") else "")
+                    for k in keys)
+    key = "derived_%s_%s" % (mk, tag)
+    src = ("from %s import *  # noqa: F401,F403\n"
+           "import %s as _parent\n\n\n"
+           "def derived(delta, %s):\n"
+           "    return 2.5 * _parent.model_func(delta, %s) + 3e-9\n\n\n"
+           "model_doc = 'derived from %s'\n"
+           "model_func = derived\n"
+           "model_key = %r\n"
+           "model_name = 'derived from %s'\n"
+           % (modname, modname, sig, ", ".join(keys), mk, key, mk))
+    f = pathlib.Path(tmpdir) / (key + ".py")
+    f.write_text(src)
+    return key, model.load_model_from_file(f, register=True)
